@@ -167,6 +167,13 @@ Definition C13_rect_stmt : Prop :=
 
 (** box -> rectangle (position = min corner, extent = max - min) and element-wise map with an arbitrary closure *)
 Definition C13_misc_stmt : Prop :=
+  (* rectangle setters / combined getter: (x, y, w, h) ++ new value *)
+  (forall k a, rrun k a p_rect_set_position = Ret ([], [a 4%nat; a 5%nat; a 2%nat; a 3%nat])) /\
+  (forall k a, rrun k a p_rect_set_extent = Ret ([], [a 0%nat; a 1%nat; a 4%nat; a 5%nat])) /\
+  (forall k a, rrun k a p_rect_position_extent = Ret ([], [a 0%nat; a 1%nat; a 2%nat; a 3%nat])) /\
+  (forall k a, rrun k a p_rect3_set_position = Ret ([], [a 6%nat; a 7%nat; a 8%nat; a 3%nat; a 4%nat; a 5%nat])) /\
+  (forall k a, rrun k a p_rect3_set_extent = Ret ([], [a 0%nat; a 1%nat; a 2%nat; a 6%nat; a 7%nat; a 8%nat])) /\
+  (forall k a, rrun k a p_rect3_position_extent = Ret ([], [a 0%nat; a 1%nat; a 2%nat; a 3%nat; a 4%nat; a 5%nat])) /\
   (forall k a, rrun k a p_aabr_into_rect = Ret ([], [a 0%nat; a 1%nat; a 2%nat - a 0%nat; a 3%nat - a 1%nat])) /\
   (forall k a, rrun k a p_aabb_into_rect = Ret ([], [a 0%nat; a 1%nat; a 2%nat; a 3%nat - a 0%nat; a 4%nat - a 1%nat; a 5%nat - a 2%nat])) /\
   (forall k (F : nat -> list R -> R) a, run (R_ops k) F a p_aabr_map = Ret ([], map (fun x => F 0%nat [x]) (tab 4 a 0))) /\
